@@ -198,7 +198,67 @@ func runSpec(c *reg.Ctx) {
 	}
 }
 
-// agreement with goldmark on a generated document
+// compareGoldmark renders doc with both implementations.  ok=false if the
+// document is outside the supported subset or touches a known defect of the
+// reference (reason says which).
+func compareGoldmark(doc string) (got, want string, ref refResult, rawHTML bool, reason string) {
+	if !utf8.ValidString(doc) || strings.ContainsRune(doc, 0) {
+		return "", "", ref, false, "gen-outside-subset/not-text"
+	}
+	if r := unsupportedSyntactic(doc); r != "" {
+		return "", "", ref, false, "gen-outside-subset/" + r
+	}
+	ref = goldmarkRender(doc)
+	switch {
+	case ref.Panic != "":
+		return "", "", ref, false, "gen-reference-failed"
+	case ref.TightList:
+		return "", "", ref, false, "gen-outside-subset/tight-list"
+	case ref.RefDefs:
+		return "", "", ref, false, "gen-outside-subset/reference-link"
+	case ref.Setext:
+		return "", "", ref, false, "gen-outside-subset/setext-heading"
+	}
+	if q := refQuirk(doc); q != "" {
+		return "", "", ref, false, "gen-reference-unreliable/" + q
+	}
+	r := render(doc, 60*time.Second)
+	if r.fail != "" {
+		return "", "", ref, false, "render-failed"
+	}
+	return normaliseElvish(r.html), normaliseRef(ref.HTML), ref, r.rawHTML, ""
+}
+
+// shrink deletes pieces of doc (at rune boundaries) as long as the two
+// implementations still disagree on a document that is still comparable and
+// not in a recorded deviation class.
+func shrink(doc string) string {
+	disagrees := func(d string) bool {
+		got, want, ref, _, reason := compareGoldmark(d)
+		return reason == "" && got != want && findingClass(d, ref) == ""
+	}
+	rs := []rune(doc)
+	budget := 3000
+	for size := len(rs) / 2; size >= 1; size /= 2 {
+		for i := 0; i+size <= len(rs) && budget > 0; {
+			cand := append(append([]rune{}, rs[:i]...), rs[i+size:]...)
+			budget--
+			if disagrees(string(cand)) {
+				rs = cand
+			} else {
+				i += size
+			}
+		}
+	}
+	return string(rs)
+}
+
+// agreement with goldmark on a generated document.  goldmark is a proxy for
+// CommonMark with defects of its own, so a disagreement with it alone raises a
+// violation only if it is confirmed: the document (or what it shrinks to) lies
+// in the class triaged as reliable (reliableShape), or in one of the recorded
+// deviation classes of pkg/md.  Otherwise it is recorded in the evidence as a
+// candidate (distribution key "candidate/...") and does not fail the check.
 func tryGoldmark(c *reg.Ctx, kind, doc string) {
 	if !strings.HasSuffix(doc, "\n") {
 		doc += "\n"
@@ -207,38 +267,30 @@ func tryGoldmark(c *reg.Ctx, kind, doc string) {
 	if r.fail != "" {
 		return
 	}
-	if !utf8.ValidString(doc) || strings.ContainsRune(doc, 0) {
-		c.Count("gen-outside-subset/not-text")
-		return
-	}
-	if reason := unsupportedSyntactic(doc); reason != "" {
-		c.Count("gen-outside-subset/" + reason)
-		return
-	}
-	ref := goldmarkRender(doc)
-	switch {
-	case ref.Panic != "":
-		c.Count("gen-reference-failed")
-		return
-	case ref.TightList:
-		c.Count("gen-outside-subset/tight-list")
-		return
-	case ref.RefDefs:
-		c.Count("gen-outside-subset/reference-link")
-		return
-	case ref.Setext:
-		c.Count("gen-outside-subset/setext-heading")
-		return
-	}
-	if q := refQuirk(doc); q != "" {
-		c.Count("gen-reference-unreliable/" + q)
+	got, want, ref, rawHTML, reason := compareGoldmark(doc)
+	if reason != "" {
+		c.Count(reason)
 		return
 	}
 	class := kind
 	if fc := findingClass(doc, ref); fc != "" {
 		class = fc
 	}
-	emitAgree(c, class, doc, normaliseElvish(r.html), normaliseRef(ref.HTML), r.rawHTML)
+	if got == want || class != kind || reliableShape(doc) {
+		emitAgree(c, class, doc, got, want, rawHTML)
+		return
+	}
+	small := shrink(doc)
+	sgot, swant, _, sraw, sreason := compareGoldmark(small)
+	if sreason == "" && sgot != swant && reliableShape(small) {
+		c.Count("agree/confirmed-by-shrinking")
+		emitAgree(c, kind, small, sgot, swant, sraw)
+		return
+	}
+	c.Count(fmt.Sprintf("candidate/goldmark-only-disagreement %q", clip(small, 160)))
+	c.Emit(reg.Case{Coq: App("KCandidate", Str(got), Str(want)),
+		Desc: desc{Kind: "candidate", Input: doc, Obs: got, Ref: want, Note: "unconfirmed disagreement with goldmark; shrunk: " + fmt.Sprintf("%q", small)},
+		Key:  "C" + doc, Class: kind, Nontrivial: true})
 }
 
 // ---- kernels ----
@@ -406,7 +458,7 @@ func run(c *reg.Ctx) {
 	runSpec(c)
 	// 2. fixed regression documents: one per recorded deviation class and a few edge cases
 	for _, doc := range []string{"&#0;x\n", "a\n1. \n", "a\n> 2. b\n>\n> 3. c\n", "a\n> -\n>\n> - b\n", "`a\n   b`\n", "[a](u \"t\n   x\")\n",
-		"&quote;\n", "", "\n", "\n\n\n", " ", "-", "- \n\n\n  a", "> ", ">\n>\n", "1.\n", "#", "# \n", "```", "~~~\n", "    ", "<", "&", "\\", "[", "![", "*", "_", "`"} {
+		"&quote;\n", "&quot;x\n", "- ```\n  a\n \n  ```\n\n- b\n", "", "\n", "\n\n\n", " ", "-", "- \n\n\n  a", "> ", ">\n>\n", "1.\n", "#", "# \n", "```", "~~~\n", "    ", "<", "&", "\\", "[", "![", "*", "_", "`"} {
 		tryGoldmark(c, "fixed", doc)
 	}
 	// 3. kernels
